@@ -131,6 +131,9 @@ class Parser:
     if v == "[":          # bare range (e.g. localparam [3:0] x)
       dims = self.packed_dims()
       return self._mk_packed(None, dims)
+    if k == "id" and v not in KEYWORDS:
+      # an identifier in type position that no typedef of this text defines
+      raise SvSyntaxError(f"undefined type {v} ({self._ctx()})")
     raise Unsupported(f"data type {v!r} ({self._ctx()})")
 
   def _mk_packed(self, base, dims):
